@@ -56,7 +56,13 @@ Kinds == {"eq", "lag1", "lag2", "lag3", "ic", "maxtime", "errtol", "usert",
 (* block such a comment / description is one line of free text like any other.                *)
 SepClasses == {"sepeq", "sepic", "sepexo", "sepplain"}
 BaseClasses == {"none", "plain", "eq", "hash", "digits", "exo"}
-CommentClasses == BaseClasses \cup SepClasses
+(* tag classes: the library's own internal tags, markers and parameter names in the free text: *)
+(* the word in the other case variants (exoU 'EXOGENOUS' = the tag Model puts on exogenous     *)
+(* right-hand sides, exoM 'Exogenous'), the marker line itself ('# Exogenous Variables',       *)
+(* tagline), 'MaxTime = ..' (pmax), 'Err_Tolerance = ..' (ptol)                                 *)
+TagClasses == {"exoU", "exoM", "tagline", "pmax", "ptol"}
+MarkerWordClasses == {"exo", "exoU", "exoM", "tagline"}     \* the lower-cased text contains 'exogenous'
+CommentClasses == BaseClasses \cup SepClasses \cup TagClasses
 Spacings == {"tight", "one", "wide"}
 
 OneEq     == {"eq", "lag1", "lag2", "lag3", "ic", "maxtime", "errtol", "usert"}   \* well-formed
@@ -69,7 +75,7 @@ IsForm(f) ==
     /\ f.kind \in Kinds /\ f.cc \in CommentClasses /\ f.sp \in Spacings
     /\ f.kind \in {"marker", "blank"} => f.cc = "none"
     \* comment-only lines that merely mention the marker word are not generated
-    /\ f.kind = "comment" => f.cc \notin {"none", "exo", "sepexo"}
+    /\ f.kind = "comment" => f.cc \notin ({"none", "sepexo"} \cup MarkerWordClasses)
     /\ f.kind = "usert" => f.v = "t"
     /\ f.kind = "maxtime" => f.v = "MaxTime"
     /\ f.kind = "errtol" => f.v = "Err_Tolerance"
@@ -113,7 +119,7 @@ Done(s, c) == [s EXCEPT !.cls = Append(@, c)]
 LineOp(s, f) ==
     IF f.kind = "marker"
     THEN Done([s EXCEPT !.mode = "exogenous"], "marker")
-    ELSE IF AsFound_MarkerTestedOnRawLine /\ f.cc = "exo"
+    ELSE IF AsFound_MarkerTestedOnRawLine /\ f.cc \in MarkerWordClasses
     THEN Done([s EXCEPT !.mode = "exogenous"], "dropped")        \* the defect
     ELSE CASE f.kind \in {"comment", "blank"} -> Done(s, "none")
            [] f.kind = "noeq"    -> Done([s EXCEPT !.msgs = Append(@, "noeq")], "none")
